@@ -453,23 +453,20 @@ func c02UploadOK(c *Ctx, m *Module) {
 	}
 
 	// the non-empty return of createReport lies under the flag
-	for _, b := range fn.Blocks {
-		ret, ok := b.Instrs[len(b.Instrs)-1].(*ssa.Return)
-		if !ok {
-			continue
-		}
-		if k, isC := constOf(ret.Results[0]); isC && k == "" {
+	for _, ex := range exitPaths(fn) {
+		ret := ex.ret
+		if k, isC := constOf(ex.vals[0]); isC && k == "" {
 			continue
 		}
 		under := false
-		for _, f := range blockFactsRaw(b) {
+		for _, f := range ex.facts {
 			if f.Cond == flag && f.Pol {
 				under = true
 			}
 		}
-		sameName := describe(ret.Results[0]) == describe(argsOf(uploadWrite)[0])
+		sameName := describe(ex.vals[0]) == describe(argsOf(uploadWrite)[0])
 		r.Check("C02.uploadOK", "createReport/non-empty result", m.Pos(ret.Pos()), under && sameName,
-			"createReport may return a file name only under uploadOK and it must be the name written by exclusiveWrite(<week>.json); returns "+describe(ret.Results[0]))
+			"createReport may return a file name only under uploadOK and it must be the name written by exclusiveWrite(<week>.json); returns "+describe(ex.vals[0]))
 	}
 
 	// start = earliest[expiry]: single caller passes a min-accumulated value
